@@ -746,6 +746,16 @@ func BoundaryStrings(asciiOnlyAround bool) []struct{ Name, S string } {
 			}
 		}
 	}
+	// the special character as the last, the last but one and the only character of a short and of a long string
+	for _, sp := range append(specials, struct{ n, s string }{"backslash", "\\"}, struct{ n, s string }{"TAB", "\t"})[:] {
+		if asciiOnlyAround && len(sp.s) == 1 {
+			continue
+		}
+		for _, pre := range []string{"", "end", strings.Repeat("b", 300)} {
+			out = append(out, struct{ Name, S string }{fmt.Sprintf("%s-last/%d", sp.n, len(pre)), pre + sp.s},
+				struct{ Name, S string }{fmt.Sprintf("%s-last-but-one/%d", sp.n, len(pre)), pre + sp.s + "."})
+		}
+	}
 	return out
 }
 
